@@ -559,6 +559,9 @@ func (d *dataCloser) Close() error {
 	if err := d.WriteCloser.Close(); err != nil {
 		return err
 	}
+	// The message has been sent: whatever the server's verdict, closing the
+	// writer again must not write a second end-of-data marker.
+	d.closed = true
 
 	d.c.conn.SetDeadline(time.Now().Add(d.c.SubmissionTimeout))
 	defer d.c.conn.SetDeadline(time.Time{})
@@ -592,7 +595,6 @@ func (d *dataCloser) Close() error {
 		}
 	}
 
-	d.closed = true
 	return refusal
 }
 
